@@ -1045,6 +1045,11 @@ class IfBlock(Block, start=IfBeginStmt, end=EndIfStmt):
         elseif_stmts = []
         else_stmt = None
         for stmt in body:
+            if isinstance(stmt, (ElseIfStmt, ElseStmt)) and else_stmt:
+                raise CompileError(
+                    EC.ELSE_WITHOUT_IF,
+                    'ELSE or ELSEIF after the ELSE of an IF block',
+                    node=stmt)
             if isinstance(stmt, ElseIfStmt):
                 elseif_stmts.append(stmt)
                 if_blocks.append((cur_if_cond, cur_if_body))
